@@ -50,6 +50,9 @@ def get_mod(prop):
 def cmd_run(a):
     mod = get_mod(a.prop)
     ns = boot.load_repo(a.repo)
+    if ns.repo_root != "/repo":
+        # a scratch tree under test never overwrites the committed evidence of /repo
+        os.environ.setdefault("BBV_EVIDENCE_DIR", "/var/tmp/bbv-evidence-scratch")
     tier = a.tier or os.environ.get("VERIF_TIER") or "quick"
     batch_seed = int(os.environ.get("VERIF_SEED", seeds.DEFAULT_SEED))
     runs, cap = TIERS[a.prop][tier]
